@@ -463,7 +463,11 @@ func (g *gen) nestedFnFrom(b *qb, qual string, base bool) {
 	if base {
 		n = 5
 	}
-	switch b.r.Intn(n) {
+	k := b.r.Intn(n)
+	if k == 3 && !b.nested {
+		k = 0 // DuckDB has no overlay(): both sides fail; only generated in the dedicated fn-nested statements
+	}
+	switch k {
 	case 0, 1: // SUBSTRING(<nested host> FROM <ident> [FOR k])
 		b.kw("SUBSTRING")
 		b.ogap()
@@ -1789,6 +1793,7 @@ var corpus = []corpusStmt{
 	{"table-qualified-col", "SELECT cpu.rid, mem.rid FROM cpu JOIN mem ON cpu.host = mem.host ORDER BY cpu.rid, mem.rid", []string{"cpu", "mem"}, nil, true, []string{"", "prod"}},
 	{"mixed-case", "SELECT rid, cnt FROM Disk WHERE cnt >= 0 ORDER BY rid", []string{"Disk"}, nil, true, []string{"", "prod"}},
 	{"mixed-case", "SELECT a.rid, b.rid FROM cpu a JOIN \"MEM\" b ON a.host = b.host ORDER BY a.rid, b.rid", []string{"cpu", "MEM"}, nil, true, []string{"", "prod"}},
+	{"mixed-case", "SELECT rid, nosuchcol FROM Disk ORDER BY rid", []string{"Disk"}, nil, true, []string{"", "prod"}},
 	{"fastpath-partial", "SELECT rid FROM cpu\nUNION ALL\nSELECT rid FROM\ndisk", []string{"cpu", "disk"}, nil, false, []string{"prod"}},
 	{"fastpath-partial", "SELECT rid, cnt FROM\ncpu WHERE rid IN (SELECT rid FROM cpu) ORDER BY rid", []string{"cpu", "cpu"}, nil, true, []string{"prod"}},
 	{"fastpath-cr", "SELECT rid, cnt FROM \r\ncpu ORDER BY rid", []string{"cpu"}, nil, true, []string{"prod"}},
